@@ -29,6 +29,29 @@ from ..core.types import Capability
 # Safety limits
 MAX_EXPRESSION_LENGTH = 10000  # Characters
 MAX_AST_DEPTH = 50  # Nesting levels
+MAX_INT_BITS = 100_000  # Integer results larger than this are refused
+MAX_SEQUENCE_LENGTH = 1_000_000  # Longest str/list/tuple a repetition may build
+MAX_FACTORIAL_ARG = 5_000
+
+
+def _bounded_pow(base: Any, exponent: Any) -> Any:
+    """operator.pow that refuses integer results too large to compute in bounded time."""
+    if isinstance(base, int) and isinstance(exponent, int) and exponent > 0 and abs(base) > 1:
+        if base.bit_length() * exponent > MAX_INT_BITS:
+            raise ValueError("Result of ** too large")
+    return operator.pow(base, exponent)
+
+
+def _bounded_mul(left: Any, right: Any) -> Any:
+    """operator.mul that refuses huge integers and huge sequence repetitions."""
+    for seq, count in ((left, right), (right, left)):
+        if isinstance(seq, (str, bytes, list, tuple)) and isinstance(count, int):
+            if len(seq) * max(count, 0) > MAX_SEQUENCE_LENGTH:
+                raise ValueError("Result of * too large")
+    if isinstance(left, int) and isinstance(right, int):
+        if left.bit_length() + right.bit_length() > MAX_INT_BITS:
+            raise ValueError("Result of * too large")
+    return operator.mul(left, right)
 
 class MetabolicPathway(Enum):
     """
@@ -144,11 +167,11 @@ class Mitochondria:
     SAFE_OPERATORS = {
         ast.Add: operator.add,
         ast.Sub: operator.sub,
-        ast.Mult: operator.mul,
+        ast.Mult: _bounded_mul,
         ast.Div: operator.truediv,
         ast.FloorDiv: operator.floordiv,
         ast.Mod: operator.mod,
-        ast.Pow: operator.pow,
+        ast.Pow: _bounded_pow,
         ast.USub: operator.neg,
         ast.UAdd: operator.pos,
     }
@@ -558,6 +581,8 @@ class Mitochondria:
                     if any(kw.arg is None for kw in node.keywords):
                         raise ValueError("Argument unpacking (**) is not supported")
                     kwargs = {kw.arg: self._compute_node(kw.value) for kw in node.keywords}
+                    if func is math.factorial and args and isinstance(args[0], int) and args[0] > MAX_FACTORIAL_ARG:
+                        raise ValueError("factorial() argument too large")
                     if callable(func):
                         return func(*args, **kwargs)
                     return func  # Constants like pi, e
